@@ -176,7 +176,7 @@ pub fn table(ctx: &Ctx) -> Report {
         let rt = tokio::runtime::Builder::new_multi_thread().worker_threads(2).enable_all().build().expect("rt");
         for rc in [10u32, 2, 52] {
             let replay = json!({"lane":"table","case":"starttls-answered-with-a-non-success-code","rc":rc});
-            let refusal = Refusal { strays: vec![], res: Res { rc, matched: String::new(), text: "tls elsewhere".into(), refs: if rc == 10 { Some(vec!["ldap://tls.example.org/".into()]) } else { None } }, name: None, split: false };
+            let refusal = Refusal { strays: vec![], res: Res { rc, matched: String::new(), text: "tls elsewhere".into(), refs: if rc == 10 { Some(vec!["ldap://tls.example.org/".into()]) } else { None } }, name: None, split: false, raw_answer: None };
             match run(&rt, &refusal) {
                 Err(e) => rep.inconclusive(format!("starttls answer {}: {}", rc, e)),
                 Ok(None) => rep.inconclusive(format!("starttls answer {}: first attempt expired on the wall clock, the retry passed", rc)),
@@ -237,6 +237,27 @@ pub fn table(ctx: &Ctx) -> Report {
         let silent = TcpListener::bind("127.0.0.1:0").await.expect("silent");
         let ps = silent.local_addr().unwrap().port();
         tokio::spawn(tcp_listener(silent, "tcp4:silent".into(), hits.clone(), "silent"));
+        // an endpoint that neither accepts nor refuses (what a filtered address does): a listening socket with
+        // a zero backlog that never accepts, plus parked connections until a further connect stalls
+        let mut _parked: Vec<tokio::net::TcpStream> = vec![];
+        let mut blackhole: Option<u16> = None;
+        let _bh_listener = match tokio::net::TcpSocket::new_v4().and_then(|s| s.bind("127.0.0.1:0".parse().unwrap()).map(|_| s)).and_then(|s| s.listen(0)) {
+            Ok(l) => {
+                let port = l.local_addr().map(|a| a.port()).unwrap_or(0);
+                for _ in 0..24 {
+                    match tokio::time::timeout(Duration::from_millis(250), tokio::net::TcpStream::connect(("127.0.0.1", port))).await {
+                        Ok(Ok(st)) => _parked.push(st),
+                        Ok(Err(_)) => break,
+                        Err(_) => {
+                            blackhole = Some(port);
+                            break;
+                        }
+                    }
+                }
+                Some(l)
+            }
+            Err(_) => None,
+        };
         // a port with no listener
         let dead = {
             let l = std::net::TcpListener::bind("127.0.0.1:0").unwrap();
@@ -315,6 +336,13 @@ pub fn table(ctx: &Ctx) -> Report {
         adds(format!("ldapi://{}", pct_path(&unix_plain)), Stream::TcpTo(pe), Expect::Err(vec!["MismatchedStreamType"]), "TCP stream with an ldapi URL naming a live socket");
         adds(format!("ldaps://127.0.0.1:{}", pe), Stream::Invalid, Expect::Err(vec!["MismatchedStreamType"]), "invalid (cloned) stream with ldaps");
         adds(format!("ldap://127.0.0.1:{}", pe), Stream::Invalid, Expect::Err(vec!["MismatchedStreamType"]), "invalid (cloned) stream with ldap");
+        // --- an unknown scheme is an error even where the rest of the URL / the settings would do for ldapi ---
+        for sch in ["ldapx", "ldapis", "unix", "foo"] {
+            cases.push(Case { url: format!("{}://{}", sch, pct_path(&unix_plain)), starttls: false, timeout_ms: None, stream: Stream::None, expect: Expect::Err(vec!["UnknownScheme"]), max_ms: None, note: "unknown scheme whose host is the percent-encoded path of a live Unix socket" });
+            cases.push(Case { url: format!("{}://localhost:389", sch), starttls: false, timeout_ms: Some(3000), stream: Stream::Unix, expect: Expect::Err(vec!["UnknownScheme", "MismatchedStreamType"]), max_ms: None, note: "pre-opened Unix stream with an unknown scheme" });
+            cases.push(Case { url: format!("{}:///", sch), starttls: false, timeout_ms: Some(3000), stream: Stream::Unix, expect: Expect::Err(vec!["UnknownScheme", "MismatchedStreamType"]), max_ms: None, note: "pre-opened Unix stream with an unknown scheme and no host" });
+            cases.push(Case { url: format!("{}://127.0.0.1:{}", sch, pe), starttls: false, timeout_ms: Some(3000), stream: Stream::TcpTo(pe), expect: Expect::Err(vec!["UnknownScheme", "MismatchedStreamType"]), max_ms: None, note: "pre-opened TCP stream with an unknown scheme" });
+        }
         // --- ldaps means TLS from the first byte, whatever the StartTLS flag says ---
         for st in [false, true] {
             cases.push(Case { url: format!("ldaps://127.0.0.1:{}", pfb), starttls: st, timeout_ms: Some(3000), stream: Stream::None, expect: Expect::TlsFirst("tcp4:fb".into()), max_ms: None, note: if st { "ldaps with the StartTLS flag set" } else { "ldaps" } });
@@ -333,6 +361,10 @@ pub fn table(ctx: &Ctx) -> Report {
         // --- timeout bounds the whole establishment, including StartTLS ---
         cases.push(Case { url: format!("ldap://127.0.0.1:{}", ps), starttls: true, timeout_ms: Some(300), stream: Stream::None, expect: Expect::Err(vec!["Timeout"]), max_ms: Some(6_000), note: "StartTLS against a server that never answers: the connection timeout must fire" });
         cases.push(Case { url: format!("ldaps://127.0.0.1:{}", ps), starttls: false, timeout_ms: Some(300), stream: Stream::None, expect: Expect::Err(vec!["Timeout"]), max_ms: Some(6_000), note: "TLS handshake against a server that never answers: the connection timeout must fire" });
+        if let Some(pb) = blackhole {
+            cases.push(Case { url: format!("ldap://127.0.0.1:{}", pb), starttls: false, timeout_ms: Some(400), stream: Stream::None, expect: Expect::Err(vec!["Timeout"]), max_ms: Some(6_000), note: "endpoint that neither accepts nor refuses the TCP connection: the connection timeout must fire" });
+            cases.push(Case { url: format!("ldaps://127.0.0.1:{}", pb), starttls: false, timeout_ms: Some(400), stream: Stream::None, expect: Expect::Err(vec!["Timeout"]), max_ms: Some(6_000), note: "endpoint that neither accepts nor refuses the TCP connection: the connection timeout must fire" });
+        }
         // the smallest timeouts are timeouts too: zero does not mean "none"
         for t in [0u64, 1] {
             cases.push(Case { url: format!("ldap://127.0.0.1:{}", ps), starttls: true, timeout_ms: Some(t), stream: Stream::None, expect: Expect::Err(vec!["Timeout"]), max_ms: Some(6_000), note: "StartTLS against a server that never answers, zero / 1 ms connection timeout" });
@@ -427,11 +459,17 @@ pub fn table(ctx: &Ctx) -> Report {
                             Err(_) => "Hung".into(),
                         }
                     } else {
-                        let fut = Caught::new(LdapConnAsync::with_settings(settings, &url));
+                        // a task of its own: a setup that blocks its thread must not block the guard
+                        let fut = tokio::spawn(async move {
+                            match Caught::new(LdapConnAsync::with_settings(settings, &url)).await {
+                                Ok(Ok(_)) => "Ok".to_string(),
+                                Ok(Err(e)) => format!("Err({})", err_class(&e)),
+                                Err(p) => format!("Panic({})", p.site()),
+                            }
+                        });
                         match tokio::time::timeout(Duration::from_secs(guard), fut).await {
-                            Ok(Ok(Ok(_))) => "Ok".into(),
-                            Ok(Ok(Err(e))) => format!("Err({})", err_class(&e)),
-                            Ok(Err(p)) => format!("Panic({})", p.site()),
+                            Ok(Ok(r)) => r,
+                            Ok(Err(_)) => "Panic(join)".into(),
                             Err(_) => "Hung".into(),
                         }
                     };
